@@ -3,7 +3,7 @@ import time
 from ..interp import Interp, Diverges
 from ..models import MODELS
 from ..values import Unsupported
-from ..terms import NF, term_str, sym
+from ..terms import NF, term_str, sym, TRUE, FALSE
 from ..facts import ty_str
 
 
@@ -256,3 +256,17 @@ def helper_by_role(facts, root, args, ret, prefer=None):
         if len(cand) == 1:
             return cand[0]
     return None
+
+
+def length_rejections(it, seqterm):
+    """the input lengths an analysed entry point rejects by panicking, read off its explicit-panic sites: the list of c with
+    "panics when len(seqterm) < c" (a site that is reached under anything else than one such length test yields None)"""
+    from .panics import input_len_fact
+    out = []
+    for s in it.sites:
+        if s['kind'] != 'explicit-panic' or s['cond'] == TRUE or s.get('expanded'):
+            continue
+        lits = set(s['facts']) | {(l[0] if l[1] else ('not', l[0])) for l in s['guard']}
+        lf = [c for t_, c in input_len_fact(lits) if t_ == ('len', seqterm)]
+        out.append(lf[0] if len(lf) == 1 else None)
+    return out
